@@ -1068,12 +1068,15 @@ class SortValues(BaseSetIndexSortValues):
     def _simplify_up(self, parent, dependents):
         from dask_expr._expr import Filter, Head, Tail
 
-        if isinstance(parent, Head):
+        # NFirst/NLast have unknown divisions while the head/tail of a presorted
+        # sort_values keeps the frame's; only rewrite when nothing that was built
+        # on top of the Head/Tail (loc, repartition, ...) consumes the result
+        if isinstance(parent, Head) and not dependents[parent._name]:
             return NFirst(
                 self.frame, n=parent.n, _columns=self.by, ascending=self.ascending
             )
 
-        if isinstance(parent, Tail):
+        if isinstance(parent, Tail) and not dependents[parent._name]:
             return NLast(
                 self.frame, n=parent.n, _columns=self.by, ascending=self.ascending
             )
